@@ -163,7 +163,7 @@ theorem fmap_header_is_generated_layout (dec : Dec) (d : Bytes) :
         let bd := pySlice d (8 + headerSize) (8 + headerSize + additionalSize)
         Layout.readK .be hd 0 Gen.TextLayouts.fmapHeader fun
           | [_, _, _, _, nfonts, nfontsCap, _, _, _, _, _, _] =>
-            (metaLoop hd nfontsCap.toNat 28).bind fun metadata => fontLoop dec bd nfonts.toNat metadata
+            (metaLoop hd nfontsCap.toNat 28).bind fun metadata => fontLoop dec bd nfonts.toNat metadata 0
           | _ => .error .other
       | _ => .error .other := parseFmap_eq_layout dec d
 
@@ -172,19 +172,22 @@ theorem fmap_meta_is_generated_layout (hd : Bytes) (n idx : Nat) :
       | [displacement, _, fontId] => (metaLoop hd n (idx + 8)).bind fun rest => .ok ((displacement, fontId) :: rest)
       | _ => .error .other := metaLoop_succ_eq_layout hd n idx
 
-theorem fmap_font_is_generated_layout (dec : Dec) (bd : Bytes) (n disp : Nat) (fontId : Int) (ms : List (Int × Int)) :
-    fontLoop dec bd (n + 1) (((disp : Int), fontId) :: ms) = Layout.readK .be bd disp Gen.TextLayouts.fmapFont fun
-      | [nchars] => (dec (pySlice bd ((disp : Int) + 4) ((disp : Int) + 4 + nchars))).bind fun name =>
-          (fontLoop dec bd n ms).bind fun rest => .ok (⟨name, fontId⟩ :: rest)
-      | _ => .error .other := fontLoop_succ_eq_layout dec bd n disp fontId ms
+theorem fmap_font_is_generated_layout (dec : Dec) (bd : Bytes) (n disp : Nat) (fontId : Int) (ms : List (Int × Int)) (acc : Nat) :
+    fontLoop dec bd (n + 1) (((disp : Int), fontId) :: ms) acc = Layout.readK .be bd disp Gen.TextLayouts.fmapFont fun
+      | [nchars] =>
+          let nameData := pySlice bd ((disp : Int) + 4) ((disp : Int) + 4 + nchars)
+          if acc + nameData.length > bd.length then .error .value else
+          (dec nameData).bind fun name =>
+          (fontLoop dec bd n ms (acc + nameData.length)).bind fun rest => .ok (⟨name, fontId⟩ :: rest)
+      | _ => .error .other := fontLoop_succ_eq_layout dec bd n disp fontId ms acc
 
 /-- stxt.py: big-endian words + bytes; text = `fdata[h0 : h0+h4]` read with get_encoding(); the run count is the word right behind the text; records from there + 2, 20 bytes apart -/
 theorem stxt_shape_is_generated : Gen.TextLayouts.stxtShape =
     [("order", ">,byte"), ("slice:0", "fdata[h0:h0+h4].decode(get_encoding())"), ("loop", "for"), ("count", "h(h0+h4+0)"), ("entry:p", "h0+h4+2"), ("stride:p", "20")] := by decide
 
-/-- fmap.py: big-endian; `8 + h0 + h4` must equal `len(fdata)`; header area `fdata[8 : 8+h0]`, name area behind it; capacity-many 8-byte records from 28; per font a 4-byte length at the displacement and the name right behind it, read with get_encoding() -/
+/-- fmap.py: big-endian; `8 + h0 + h4` must equal `len(fdata)`; header area `fdata[8 : 8+h0]`, name area behind it; capacity-many 8-byte records from 28; per font a 4-byte length at the displacement and the name right behind it, read with get_encoding(); the names read so far may not exceed the name area (fix F52) -/
 theorem fmap_shape_is_generated : Gen.TextLayouts.fmapShape =
-    [("order", ">"), ("guard:0", "8 + h0 + h4 != len(fdata)"), ("slice:0", "fdata[8:h0+8]"), ("slice:1", "fdata[h0+8:h0+h4+8]"), ("meta.loop", "for"), ("meta.count", "buf1.h12"), ("meta.entry:p", "28"), ("meta.stride:p", "8"), ("font.loop", "for"), ("font.count", "buf1.h8"), ("font.stride:p", "buf2.e0+4"), ("font.slice:0", "buf2[p+4:p+buf2.e0+4].decode(get_encoding())")] := by decide
+    [("order", ">"), ("guard:0", "8 + h0 + h4 != len(fdata)"), ("slice:0", "fdata[8:h0+8]"), ("slice:1", "fdata[h0+8:h0+h4+8]"), ("meta.loop", "for"), ("meta.count", "buf1.h12"), ("meta.entry:p", "28"), ("meta.stride:p", "8"), ("font.loop", "for"), ("font.count", "buf1.h8"), ("font.stride:p", "buf2.e0+4"), ("font.slice:0", "buf2[p+4:p+buf2.e0+4]"), ("font.slice:1", "buf3[0:end].decode(get_encoding())"), ("font.acc:0", "acc1 += len(buf3)"), ("font.guard:0", "acc1 > len(buf2)")] := by decide
 
 /-! ## the property -/
 
